@@ -743,6 +743,40 @@ func (e *env) registryOps(st Step) (res Result) {
 			rg.Wait()
 			codec.Remove(nm)
 		}
+		if r%8 == 5 {
+			// phase F - a name that stays registered is looked up while other names are registered and removed:
+			// every look-up must find it (a look-up that gives up when the lock is busy reports it absent)
+			nm := name + "_stay"
+			sv := &namedSvc{nm}
+			codec.Registry(sv)
+			stop := make(chan struct{})
+			var wg2 sync.WaitGroup
+			for t := 0; t < 3; t++ {
+				wg2.Add(1)
+				go func(t int) {
+					defer wg2.Done()
+					o := &namedSvc{fmt.Sprintf("%s_w%d", nm, t)}
+					for {
+						select {
+						case <-stop:
+							codec.Remove(o.name)
+							return
+						default:
+							codec.Registry(o)
+							codec.Remove(o.name)
+						}
+					}
+				}(t)
+			}
+			for i := 0; i < 400; i++ {
+				if v, ok := codec.Get(nm); !ok || v != any(sv) {
+					anomalies++
+				}
+			}
+			close(stop)
+			wg2.Wait()
+			codec.Remove(nm)
+		}
 		if r%8 == 6 {
 			// phase D - a Remove that drains the registry overlaps registrations of other names: a registration
 			// that reported success must still be there afterwards (nobody removed it)
